@@ -58,7 +58,7 @@ func c03Run(c *Ctx) {
 		c03Hostiles(c, d, b)
 		return
 	}
-	sc := GenScenario(r, d, &ScenCfg{MaxItems: 10, POcc: 30, PCluster: 8, PPos: 30, PCmd: 15, PTerm: 35, PQuoted: 10, HostileRaw: true, PUnknown: 15})
+	sc := GenScenario(r, d, &ScenCfg{MaxItems: 10, POcc: 30, PCluster: 8, PPos: 30, PCmd: 15, PTerm: 35, PQuoted: 10, HostileRaw: true, PUnknown: 15, PSiblingWord: 12, PCmdWordAsPos: 10})
 	args := sc.Args()
 	c.Case(caseOf(sc, args, nil))
 	if sc.Exp.Unspec != "" {
@@ -132,6 +132,11 @@ func c03Hostiles(c *Ctx, d *Decl, b *Built) {
 	}
 	for _, cm := range d.Cmds[1:] {
 		names = append(names, cm.Name)
+	}
+	for _, o := range d.Opts {
+		if o.Short != 0 && o.T.IsFlag() {
+			names = append(names, "-"+string(o.Short)+"Z", "-"+string(o.Short)+string(o.Short)+"9", "-Z"+string(o.Short))
+		}
 	}
 	n := r.Range(0, 12)
 	var args []string
